@@ -127,7 +127,7 @@ def judge(case, m):
     other_used = [c for c in used if c not in numeric_used]
 
     def blank(col, rows):
-        if meta[col]["kind"] in ("int", "code"):
+        if meta[col]["kind"] in ("int", "code", "bool", "nint", "nfloat"):
             df[col] = df[col].astype(float)
         if isinstance(df[col].dtype, pd.CategoricalDtype):
             df[col] = df[col].astype(object).where(~df.index.isin(df.index[rows]), other=np.nan).astype(df[col].dtype)
